@@ -393,3 +393,11 @@ def _carbon_clause_shared(ctx) -> None:
     c07.rule_e12(ctx, "C03-V9")
     # V10: the carbon totals behind the label are sums over every component, with multiplicity (shared with C07-E6)
     c07.rule_e6(ctx, "C03-V10")
+    # V11: in the written output a declined row keeps its reason under `issue` and a solved row an empty one: result
+    # chunks are not appended under the column layout of an earlier chunk (shared with C06-B10)
+    from . import c06
+
+    c06.rule_b10(ctx, "C03-V11")
+    # V12: a declined reaction is returned with its reason: the fault of its own work becomes its issue text and does
+    # not escape to the batch level, where the row would be lost (shared with C06-B14)
+    c06.rule_b14(ctx, ctx.pipeline_reachable(), "C03-V12")
